@@ -28,12 +28,12 @@ def build_full(rng, block_sizes, kinds=None, pad=None, block_max=None, pad_fn=No
     bm = block_max if block_max is not None else max(list(block_sizes) + [16])
     return struct.pack("<IIII", 3, 1, bm, len(plain)) + body, plain
 
-def build_patch(rng, blocks, block_max=None, pad_fn=None, btypes=None):
+def build_patch(rng, blocks, block_max=None, pad_fn=None, btypes=None, first_match=None):
     """blocks: list of (source size, target size).  returns (patch bytes, base bytes, target plaintext)"""
     base = b""; target = b""; body = b""
     for ss, ds in blocks:
         ref = bytes(rng.choice(b"abcdefghijklmnop") for _ in range(ss))
-        s, d = lzxenc.encode(rng, wbits_patch(ss, ds), ds, delta=True, ref=ref, btypes=btypes)
+        s, d = lzxenc.encode(rng, wbits_patch(ss, ds), ds, delta=True, ref=ref, btypes=btypes, first_match=first_match)
         p = bytes(rng.randrange(256) for _ in range(pad_fn(len(s)))) if pad_fn else bytes(rng.choice([0, 0, 3]))
         body += struct.pack("<IIII", len(s) + len(p), ds, ss, regcrc(d)) + s + p
         base += ref; target += d
